@@ -44,6 +44,19 @@ ANGLES = {
     produce;
   * DATA-DEPENDENT ITERATION: behaviour that depends on which of several equal-cost candidates is met first, on the insertion order of a dict
     or set built from the input, or on the textual order of names - arranged so that natural small inputs happen to come out right.""",
+    8: """ANGLES for this round (pick whichever fit this property; stay inside its stated domain):
+  * DEGENERATE INSTANCES that are still legal: a tree that is a single node, an object tree with one or two leaves, all objects in one
+    species, a species tree with one leaf, an empty or one-element sequence, a graph without arcs, an empty synteny or a family present in
+    every leaf, all unit costs zero, identical children, a node whose children are given in the opposite order to the species tree;
+  * THE CALLER'S ARGUMENTS: a function that still returns the right thing but now modifies, sorts, empties, aliases or keeps a reference to
+    something the caller passed in or gets back (a list, dict, set, tree, cost table), so that the caller's NEXT use of that object - a second
+    call, another algorithm, a serialisation, a drawing - goes wrong;
+  * DOCUMENTED FORMAT FEATURES that are rarely exercised: NHX annotations other than colour, quoted or blank-padded names, branch lengths and
+    support values in the Newick text, keys in another order, optional keys left out or set to null, numbers given as strings;
+  * HASH-SEED AND IDENTITY DEPENDENCE: a result that is right under one PYTHONHASHSEED and wrong under another, or that depends on object
+    addresses / creation order (sets of nodes, dict of sets), arranged so that the default seed and natural small inputs come out right;
+  * TWO COOPERATING SITES in different files: each edit is a defensible clean-up on its own and harmless alone; together they break the
+    property for a nameable class of inputs.""",
 }
 
 
